@@ -251,14 +251,14 @@ class _Transform(ast.NodeTransformer):
             text = repr(node.value)
             if text in ('inf', '-inf', 'nan'):
                 return node
-            new = ast.Call(func=ast.Name(id='__vf_Q', ctx=ast.Load()),
+            new = ast.Call(func=ast.Name(id='vfQ_', ctx=ast.Load()),
                            args=[ast.Constant(value=text)], keywords=[])
             return ast.copy_location(new, node)
         return node
 
     def visit_Set(self, node):
         self.generic_visit(node)
-        new = ast.Call(func=ast.Name(id='__vf_set', ctx=ast.Load()),
+        new = ast.Call(func=ast.Name(id='vfSet_', ctx=ast.Load()),
                        args=[ast.List(elts=node.elts, ctx=ast.Load())], keywords=[])
         return ast.copy_location(new, node)
 
@@ -266,7 +266,7 @@ class _Transform(ast.NodeTransformer):
         self.generic_visit(node)
         gen = ast.GeneratorExp(elt=node.elt, generators=node.generators)
         ast.copy_location(gen, node)
-        new = ast.Call(func=ast.Name(id='__vf_set', ctx=ast.Load()), args=[gen], keywords=[])
+        new = ast.Call(func=ast.Name(id='vfSet_', ctx=ast.Load()), args=[gen], keywords=[])
         return ast.copy_location(new, node)
 
 
@@ -322,8 +322,8 @@ def load(modname, mode='R', bindings=None, fresh=False, submodules=None):
     code = compile(tree, path, 'exec')
     mod = types.ModuleType(modname)
     mod.__file__ = path
-    mod.__dict__['__vf_Q'] = symx.Q
-    mod.__dict__['__vf_set'] = SymSet
+    mod.__dict__['vfQ_'] = symx.Q
+    mod.__dict__['vfSet_'] = SymSet
     mod.__dict__['__builtins__'] = builtins
     # make `import spowtd.x as y` inside the module resolve to instrumented copies
     saved = {}
